@@ -108,5 +108,5 @@ Apply(act, arg, g) ==
     [] act = "mkmulti" -> MkMulti(<<g, arg>>)
     [] act = "mkpoly" -> MkPoly(<<g, arg>>)
     [] act = "geojson" -> GJ!Loss(g)
-    [] act \in {"snap0","densify","wkb","wkt","forcecw","forceccw","viactor"} -> g
+    [] act \in {"snap0","densify","wkb","wkt","forcecw","forceccw","viactor","nop"} -> g
 =============================================================================
